@@ -89,7 +89,65 @@ theorem C20_holds (r : Row) (hr : r ∈ table) (c : Cfg) :
     exact this r hr
   exact ⟨funcs_no_panic r h c, funcs_set_delegates r h c, funcs_unset_clean r h c⟩
 
+/-! ### "… with the same arguments and results" -/
+
+/-- In the current `func.go` the guarded branch of every method is the single
+statement `return f.<Field>(ctx, <args>)` — one call, no `...`, nothing between the
+call and the `return` — and every field is declared with exactly the parameter and
+result types of its method. -/
+theorem generated_returns_verbatim :
+    table.all (·.returnsCallVerbatim) = true ∧ table.all (·.signatureSame) = true := by decide
+
+/-- A set method returns its results: for every behaviour `user` of the functions in
+the table and every argument values `env`, the caller gets exactly what the user's
+function for that method returned on the caller's arguments, in order. -/
+theorem funcs_set_returns_verbatim {α ρ : Type} (r : Row) (h : RowOk r = true)
+    (hv : r.returnsCallVerbatim = true) (hsig : r.signatureSame = true) (c : Cfg)
+    (hn : c.nilRecv = false) (hs : c.set (fieldOf r.method) = true)
+    (user : String → List α → ρ) (env : String → α) :
+    result user env c r = .user (user (fieldOf r.method) (r.params.map env)) := by
+  simp [result, funcs_set_delegates r h c hn hs, hv, hsig]
+
+/-- … and only then: an unset method (or a nil table) returns the constructor's
+error whatever the user's other functions would return. -/
+theorem funcs_unset_result {α ρ : Type} (r : Row) (h : RowOk r = true) (c : Cfg)
+    (hu : c.nilRecv = true ∨ c.set (fieldOf r.method) = false)
+    (user : String → List α → ρ) (env : String → α) :
+    result user env c r = .error r.method r.errRepo (!c.nilRecv && c.hasNewError) r.unsetShape := by
+  simp [result, funcs_unset_clean r h c hu]
+
+/-- The results clause for the code as it is now: every method of the regenerated
+table, every configuration, every behaviour of the user's functions. -/
+theorem C20_results_hold {α ρ : Type} (r : Row) (hr : r ∈ table) (c : Cfg)
+    (user : String → List α → ρ) (env : String → α) :
+    (c.nilRecv = false → c.set (fieldOf r.method) = true →
+      result user env c r = .user (user (fieldOf r.method) (r.params.map env))) ∧
+    ((c.nilRecv = true ∨ c.set (fieldOf r.method) = false) →
+      result user env c r = .error r.method r.errRepo (!c.nilRecv && c.hasNewError) r.unsetShape) := by
+  have h : RowOk r = true := by
+    have := generated_table_ok
+    simp [TableOk, List.all_eq_true] at this
+    exact this r hr
+  obtain ⟨h1, h2⟩ := generated_returns_verbatim
+  simp only [List.all_eq_true] at h1 h2
+  exact ⟨fun hn hs => funcs_set_returns_verbatim r h (h1 r hr) (h2 r hr) c hn hs user env,
+    fun hu => funcs_unset_result r h c hu user env⟩
+
 /-- Non-vacuity: a concrete row and configuration meeting the hypotheses. -/
 example : ∃ r ∈ table, r.method = "GetBlob" ∧ RowOk r = true := by decide
+
+/-- The hypotheses of `funcs_set_returns_verbatim` on a row of the table, with the
+result evaluated (a user function that returns its field name and arguments); and
+the two flags matter: the same row with `returnsCallVerbatim` cleared (a body that
+does something to the results) is not claimed to return them. -/
+example : ∃ r ∈ table, r.method = "MountBlob" ∧ RowOk r = true ∧
+    r.returnsCallVerbatim = true ∧ r.signatureSame = true ∧
+    let c : Cfg := { nilRecv := false, set := fun f => f == "MountBlob_", hasNewError := false }
+    let env : String → Nat := fun p => p.length
+    let user : String → List Nat → String × List Nat := fun f a => (f, a)
+    c.set (fieldOf r.method) = true ∧
+    result user env c r = .user ("MountBlob_", [8, 6, 6]) ∧
+    result user env c { r with returnsCallVerbatim := false } = .unknown ∧
+    result user env { c with nilRecv := true } r = .error "MountBlob" "toRepo" false "zero,err" := by decide
 
 end OciModel.Props.C20
